@@ -371,3 +371,64 @@ def loopcover(facts: CppFacts, methods=("ConvertToBinary", "ConvertToBcd")):
                 res.samples.append(f"BcdView::{mname}: `{cond.strip()}` step {n} covers bits 0..k-1 for k = 1..64")
     res.analysed = [PRELUDE]
     return res
+
+
+def signconv(facts: CppFacts):
+    """R-SIGNCONV (C02): IntView::ConvertToSigned (the branch compiled on two's-complement targets) is one integer
+    expression over the raw field bits.  It is folded with the typed C++ folder — integer promotions matter here: for
+    8- and 16-bit value types the operands of the shifts are `int`, so the truncating cast has to sit between the two
+    shifts — for every block width, every field width k and the five bit patterns that delimit the two sign classes
+    (0, 1, 2^(k-1)-1, 2^(k-1), 2^k-1); the result must be the k-bit two's-complement value of the pattern.  Local
+    `constexpr` constants in front of the return are bound first."""
+    res = RuleResult("R-SIGNCONV")
+    ms = facts.method("IntView", "ConvertToSigned")
+    if not ms:
+        raise AnalysisError("IntView::ConvertToSigned vanished")
+    m = ms[0]
+    body = re.sub(r"//[^\n]*", "", m.body)
+    mm = re.search(r"#if\s+EMBOSS_SYSTEM_IS_TWOS_COMPLEMENT(.*?)#else", body, re.S)
+    if not mm:
+        raise AnalysisError("ConvertToSigned: the two's-complement branch was not found")
+    branch = mm.group(1)
+    consts = re.findall(r"(?:static\s+)?(?:constexpr|const)\s+(?:\w+(?:::\w+)*\s+)+(\w+)\s*=\s*([^;]+);", branch)
+    rm = re.search(r"return\s+(.*?);", branch, re.S)
+    if not rm:
+        raise AnalysisError("ConvertToSigned: no return in the two's-complement branch")
+    pnames = [p[1] for p in m.params]
+    dname = pnames[0] if pnames else "data"
+    try:
+        cexprs = [(n, X.parse(e, type_names=TYPES)) for n, e in consts]
+        rexpr = X.parse(rm.group(1), type_names=TYPES)
+    except X.Unsupported as u:
+        raise AnalysisError(f"ConvertToSigned: {u}")
+    bad = None
+    for w in (8, 16, 32, 64):
+        bv = X.T(False, w)
+        for k in range(1, w + 1):
+            vt = X.T(True, _least(k))
+            for probe in sorted({0, 1, (1 << (k - 1)) - 1, 1 << (k - 1), (1 << k) - 1}):
+                if probe >= (1 << k):
+                    continue
+                res.instances += 1
+                env = X.Env({"Parameters::kBits": X.V(X.INT, k), dname: X.V(bv, probe)},
+                            {"ValueType": vt, "BitViewType::ValueType": bv}, {})
+                want = probe - (1 << k) if probe >> (k - 1) else probe
+                try:
+                    for n, e in cexprs:
+                        env.values[n] = X.evaluate(e, env)
+                    got = X.evaluate(rexpr, env)
+                    got = X.convert(got, vt).v
+                except X.UB as u:
+                    got = f"undefined behaviour ({u})"
+                except X.Unsupported as u:
+                    raise AnalysisError(f"ConvertToSigned: {u}")
+                if got != want and bad is None:
+                    bad = (w, k, probe, got, want, vt)
+    if bad:
+        w, k, probe, got, want, vt = bad
+        res.add(f"{m.file}|IntView::ConvertToSigned|sign-extension", f"IntView::ConvertToSigned: a {k}-bit field holding {probe:#x} "
+                f"(value type {vt!r}, {w}-bit block) converts to {got}; its two's-complement value is {want}.  With `int` promotion "
+                "the truncation to the value type has to happen between the left and the right shift", m.file, m.line, "IntView::ConvertToSigned")
+    res.samples = [f"ConvertToSigned: `{' '.join(rm.group(1).split())}`"]
+    res.analysed = [PRELUDE]
+    return res
